@@ -163,3 +163,66 @@ def run_c07(tier, seed, replay=None):
                       lambda d: {k: d[k] for k in ("walk", "kind", "mode", "target", "flags", "variant", "what", "got", "want")})
     finally:
         sc.close()
+
+
+# ---------------------------------------------------------------------------
+# C03: DvVisit component stage (the lifecycle stage follows in lifecheck)
+
+def dvvisit_stage(zx, sc, tier, seed, known):
+    q = tier == "quick"
+    cfg = "DvVisitQ.cfg" if q else "DvVisit.cfg"
+    outp, st = tlc(sc, "DvVisit", cfg=cfg, workers=8, timeout=1800, outname="dv.out")
+    errs = tlc_errors(outp)
+    if errs:
+        raise Inconclusive("DvVisit model: " + "; ".join(errs[:3]))
+    cnt = split_printed(outp, sc, {"WALK": ("dvwalks.ndjson", "lines"), "TABLES": ("dvtables.json", "one")})
+    os.remove(outp)
+    if cnt["WALK"] == 0 or cnt["TABLES"] != 1:
+        raise Inconclusive("DvVisit model emitted no walks")
+    p = subprocess.run([zx, "dvvisit", "-in", sc.path("dvwalks.ndjson"), "-tables", sc.path("dvtables.json"), "-dir", sc.path("dvsegs"),
+                        "-out", sc.path("dvdiffs.ndjson")], stdout=subprocess.PIPE, stderr=subprocess.STDOUT, text=True, timeout=3600)
+    if p.returncode != 0:
+        raise Inconclusive("harness dvvisit failed: " + p.stdout[-1500:])
+    rs = kv(p.stdout)
+    log("G: DvVisit(%s): %d states (DvAnyOrder holds), %d maximal walks;  R: %s" % (cfg, st["distinct_states"], cnt["WALK"], p.stdout.strip()))
+    if rs.get("runs", 0) == 0:
+        raise Inconclusive("vacuous dvvisit replay")
+    diffs = read_diffs(sc.path("dvdiffs.ndjson"))
+    paths, seen = [], set()
+    for d in diffs:
+        key = "dvvisit/" + d["what"].split(" ")[0]
+        if key in seen or len(paths) >= 3:
+            continue
+        seen.add(key)
+        log("mismatch %s: %s" % (key, trunc(d, 700)))
+        paths.append(save_replay("C03", seed, 100 + len(paths), {"property": "C03", "key": key, "family": "dvvisit", "diff": d}))
+    with open(sc.path("dvwalks.ndjson")) as fh:
+        samples = [json.loads(fh.readline())]
+    cov = {"family": "dvvisit", "states": st["distinct_states"], "transitions": st["states_generated"],
+           "traces_validated_against_impl": rs["runs"], "samples": samples,
+           "model": {"module": "DvVisit.tla", "cfg": cfg, "invariants": ["DvAnyOrder"], "wall_s": st["wall_s"]},
+           "walks": cnt["WALK"], "runs": rs["runs"],
+           "configurations": "every visit sequence x doc-value chunk sizes {1,2,3,1024} x provenance pairs of the two segments {mem, mmap, merged}"}
+    return {"cov": cov, "paths": paths}
+
+
+def dvvisit_replay(replay):
+    sc = Scratch()
+    try:
+        zx = build_harness(("verif",))
+        obj = json.load(open(replay))
+        outp, st = tlc(sc, "DvVisit", cfg="DvVisitQ.cfg", workers=8, timeout=600, outname="dv.out")
+        split_printed(outp, sc, {"TABLES": ("dvtables.json", "one")})
+        with open(sc.path("w.ndjson"), "w") as fh:
+            fh.write(json.dumps(obj["diff"]["walk"]) + "\n")
+        p = subprocess.run([zx, "dvvisit", "-in", sc.path("w.ndjson"), "-tables", sc.path("dvtables.json"), "-dir", sc.path("dvsegs"),
+                            "-out", sc.path("dvdiffs.ndjson")], stdout=subprocess.PIPE, stderr=subprocess.STDOUT, text=True)
+        diffs = read_diffs(sc.path("dvdiffs.ndjson"))
+        if diffs:
+            log("replay: " + trunc(diffs[0], 800))
+            log("VIOLATION property=C03 replay=%s" % replay)
+            return 1
+        log("replay: no violation of C03 on the current tree")
+        return 0
+    finally:
+        sc.close()
